@@ -10,18 +10,11 @@ CONSTANTS
     MaxCmds,     \* maximal number of driver commands in a behaviour
     MaxTime,     \* horizon
     MaxQueue,    \* maximal number of queued actions
-    SchedCls,    \* subset of {"ev", "act"}
-    EvTargets,   \* targets for cls "ev": models, "DEAD", "ORPHAN"
-    Deltas,      \* relative deadlines offered to the driver
-    AbsTimes,    \* absolute deadlines offered to the driver
-    Kinds,       \* subset of {"once","keyed","periodic","kperiodic"}
-    Periods,     \* periods offered (0 is the invalid one)
-    SlotSet,     \* key slots used by the driver
-    DrvProgs,    \* programs the driver may put in events
-    UntilDeltas, \* relative targets of step_until
-    UntilAbs,    \* absolute targets of step_until
-    ProcKinds,   \* subset of {"event","query","action"}
-    ProcTargets, \* targets of process_event / process_query
+    SchedCmds,   \* set of scheduling commands [cls, target, abs, d, kind, per, slot, prog]
+    CancelSlots, \* key slots the driver may cancel
+    StepOn,      \* TRUE: step() is in the alphabet
+    Untils,      \* set of step_until commands [abs, d]
+    Procs,       \* set of process commands [kind, target, prog]
     Lags,        \* lags the clock may report
     Emit         \* TRUE: print one JSON line per finished behaviour
 
@@ -31,41 +24,32 @@ mcvars == <<vars, hist>>
 
 MCInit == Init /\ hist = <<>>
 
-C(name, f) == [c |-> name] @@ f
-
-SrcIds == 1..Len(SrcConn)
-
 DriverStep ==
     /\ Len(hist) < MaxCmds
     /\ phase = "idle"
-    /\ \/ \E cls \in SchedCls, abs \in BOOLEAN, kind \in Kinds, slot \in SlotSet, prog \in DrvProgs :
-          \E tgt \in (IF cls = "ev" THEN EvTargets ELSE SrcIds) :
-          \E d \in (IF abs THEN AbsTimes ELSE Deltas) :
-          \E per \in (IF IsPeriodicKind(kind) THEN Periods ELSE {0}) :
-          \E out \in {"ok", "invalid_time", "null_period"} :
-             /\ (IsKeyedKind(kind) \/ slot = CHOOSE x \in SlotSet : TRUE)
-             /\ DSchedule(cls, tgt, abs, d, kind, per, slot, prog, out)
-             /\ hist' = Append(hist, [c |-> "sched", cls |-> cls, target |-> tgt, abs |-> abs, d |-> d,
-                                      kind |-> kind, per |-> per, slot |-> slot, prog |-> prog])
-       \/ \E slot \in SlotSet :
+    /\ \/ \E c \in SchedCmds : \E out \in {"ok", "invalid_time", "null_period"} :
+             /\ DSchedule(c.cls, c.target, c.abs, c.d, c.kind, c.per, c.slot, c.prog, out)
+             /\ hist' = Append(hist, [c |-> "sched"] @@ c)
+       \/ \E slot \in CancelSlots :
              /\ slots[slot] # 0
              /\ DCancel(slot)
              /\ hist' = Append(hist, [c |-> "cancel", slot |-> slot])
-       \/ /\ DStep
+       \/ /\ StepOn
+          /\ DStep
           /\ hist' = Append(hist, [c |-> "step"])
-       \/ \E abs \in BOOLEAN : \E d \in (IF abs THEN UntilAbs ELSE UntilDeltas) :
-             /\ DStepUntil(abs, d)
-             /\ hist' = Append(hist, [c |-> "step_until", abs |-> abs, d |-> d])
-       \/ \E kind \in ProcKinds, prog \in DrvProgs :
-          \E tgt \in (IF kind = "action" THEN SrcIds ELSE ProcTargets) :
-             /\ DProcess(kind, tgt, prog)
-             /\ hist' = Append(hist, [c |-> "process", kind |-> kind, target |-> tgt, prog |-> prog])
+       \/ \E u \in Untils :
+             /\ DStepUntil(u.abs, u.d)
+             /\ hist' = Append(hist, [c |-> "step_until"] @@ u)
+       \/ \E p \in Procs :
+             /\ DProcess(p.kind, p.target, p.prog)
+             /\ hist' = Append(hist, [c |-> "process"] @@ p)
 
 InnerStep ==
     /\ \/ Pull
        \/ \E lag \in Lags : DoSync(lag)
        \/ SkipSameSync
-       \/ \E m \in Models, s \in Senders : HSkip(m, s) \/ HBegin(m, s)
+       \/ \E m \in Models, s \in Senders : HSkip(m, s) \/ HTake(m, s)
+       \/ \E m \in Models : HStart(m)
        \/ \E m \in Models, out \in {"ok", "invalid_time", "null_period"} : HOp(m, out)
        \/ Quiesce
        \/ \E e \in pendErr : Abort(e)
